@@ -62,7 +62,7 @@ pub struct Scenario {
     pub edges: Vec<(K, K)>,
     /// ops applied after connecting (disconnect / isolate), as seq ops
     pub post: Vec<Op>,
-    /// which extra handles to take (bit set): 0 container, 1 edge, 2 path, 3 cycle, 4 preorder nodes, 5 postorder edges, 6 clone, 7 found node
+    /// which extra handles to take (bit set): 0 container, 1 edge, 2 path, 3 cycle, 4 preorder nodes, 5 postorder edges, 6 clone, 7 found node; bit 8: neighbour lookups from both ends before the drops
     pub extras: u32,
     /// permutation of handle indices = drop order
     pub order: Vec<usize>,
@@ -156,6 +156,21 @@ pub fn run_scenario<F: Flav>(sc: &Scenario, rep: &mut Report) -> Vec<String> {
     }
     for op in &sc.post {
         let _ = exec::<F>(&mut w, *op, (0, 0));
+    }
+    if sc.extras & 256 != 0 {
+        // lookups from both ends of every pair (and refused try_connects) before anything is dropped:
+        // a lookup must not leave anything behind that keeps a node alive
+        for a in 0..sc.n {
+            for b in 0..sc.n as K {
+                let na = &w.nodes[a];
+                let c = F::is_connected(na, &b);
+                let _ = (F::find_out(na, &b).is_some(), F::find_in(na, &b).is_some());
+                if c {
+                    let _ = F::try_connect(na, &w.nodes[b as usize], Eid { id: 9_000_000, val: 0 });
+                }
+            }
+        }
+        rep.count("scenarios_with_lookups_before_drop");
     }
     let mut hs: Vec<Option<H<F>>> = take_handles::<F>(&w, sc.extras).into_iter().map(Some).collect();
     // the original handles are handles too
@@ -269,7 +284,7 @@ fn report<F: Flav>(rep: &mut Report, sc: &Scenario, msgs: &[String]) {
 
 pub fn run<F: Flav>(rep: &mut Report, max_n: usize, max_e: usize, random: u64, shard: u64, nshards: u64, rng: &mut Rng) {
     let mut idx = 0u64;
-    let extras_sets: [u32; 10] = [0, 1, 2, 4, 8, 16 | 32, 1 | 2, 2 | 4 | 8, 64 | 128, 255];
+    let extras_sets: [u32; 12] = [0, 1, 2, 4, 8, 16 | 32, 1 | 2, 2 | 4 | 8, 64 | 128, 255, 256, 256 | 1 | 2 | 128];
     for n in 1..=max_n {
         for ne in 0..=max_e {
             let total = ((n * n) as u64).pow(ne as u32);
@@ -346,7 +361,7 @@ pub fn run<F: Flav>(rep: &mut Report, max_n: usize, max_e: usize, random: u64, s
             let b = rng.below(n) as K;
             post.push(if rng.chance(1, 4) { Op::Isolate(a) } else { Op::Disconnect(a, b) });
         }
-        let extras = rng.below(256) as u32;
+        let extras = rng.below(512) as u32;
         let mut order: Vec<usize> = (0..n + 8).collect();
         rng.shuffle(&mut order);
         let sc = Scenario { n, edges, post, extras, order };
